@@ -9,6 +9,7 @@ import (
 	"bytes"
 	"fmt"
 	"math/rand"
+	"os"
 	"sync"
 	"time"
 
@@ -46,6 +47,9 @@ type xfPeerOpts struct {
 	StatFail *xfFail
 	ShortCap int  // > 0: DATA replies carry at most this many bytes
 	NoPerm   bool // ATTRS replies carry the size only (no permissions: not known to be a regular file)
+	// PathView: what STAT/LSTAT of the PATH answer once the name no longer refers to the open file (FSTAT of the
+	// handle keeps answering from the served file)
+	PathView *xfNameView
 	Idle     time.Duration
 }
 
@@ -182,6 +186,18 @@ func (p *xfPeer) Log() []xfReq {
 	p.mu.Lock()
 	defer p.mu.Unlock()
 	return append([]xfReq(nil), p.log...)
+}
+
+// LogLen is the number of requests recorded so far; LogFrom returns those from index i on.
+func (p *xfPeer) LogLen() int { p.mu.Lock(); defer p.mu.Unlock(); return len(p.log) }
+
+func (p *xfPeer) LogFrom(i int) []xfReq {
+	p.mu.Lock()
+	defer p.mu.Unlock()
+	if i > len(p.log) {
+		i = len(p.log)
+	}
+	return append([]xfReq(nil), p.log[i:]...)
 }
 
 func (p *xfPeer) ResetLog() {
@@ -375,6 +391,20 @@ func (p *xfPeer) answer(q xfReq) []byte {
 		}
 		if p.opts.StatFail != nil {
 			return wire.StatusFrame(q.ID, p.opts.StatFail.Code, p.opts.StatFail.Msg)
+		}
+		if v := p.opts.PathView; v != nil && q.Typ != wire.Fstat && v.Kind != "" && v.Kind != "same" {
+			size, mode, exists := v.Attrs(q.Typ == wire.Lstat)
+			if !exists {
+				return wire.StatusFrame(q.ID, wire.NoSuchFile, "no such file")
+			}
+			perm := uint32(mode.Perm()) | 0o100000
+			switch {
+			case mode&os.ModeSymlink != 0:
+				perm = uint32(mode.Perm()) | 0o120000
+			case mode.IsDir():
+				perm = uint32(mode.Perm()) | 0o040000
+			}
+			return wire.AttrsFrame(q.ID, wire.St{Flags: wire.ASize | wire.APerm, Size: uint64(size), Perm: perm})
 		}
 		if !p.exists {
 			return wire.StatusFrame(q.ID, wire.NoSuchFile, "no such file")
